@@ -107,11 +107,18 @@ CHECKS = {
              "function when a class template is instantiated (scope-chain signature, own-contract recursion); every "
              "module-/class-level mutable root is reset or untouched per run, so create_wrapper after earlier runs equals a "
              "fresh command line (effect judgement). Four genuine defects found and fixed. Whole-run identity is monitored "
-             "(bounded, both tiers: two-run relations m_equiv; m_options in the thorough tier). Further units: per-argument attrs merge (keyed by the argument's own name), create_wrapper passes its parameters through unchanged; m_equiv also relates a customisation on every instantiation to the same one on the class template, attrs vs inline attributes with fortran_generic, constructors inside blocks. Six genuine defects found and fixed in all. Bounded relations on every upstream regression input (m_corpus_rel) run in both tiers.",
+             "(bounded, both tiers: two-run relations m_equiv; m_options in the thorough tier). Further units: per-argument attrs merge (keyed by the argument's own name), create_wrapper passes its parameters through unchanged; m_equiv also relates a customisation on every instantiation to the same one on the class template, attrs vs inline attributes with fortran_generic, constructors inside blocks. Six genuine defects found and fixed in all. Bounded relations on every upstream regression input (m_corpus_rel) run in both tiers. "
+             "util.Scope itself (the scoped dictionary of the first anchor): every method -- __init__, __getattr__, __getitem__, "
+             "__contains__, get, setdefault, update (both replace modes, loop invariant over a complete enumeration of the "
+             "argument's keys), inlocal, delattrs, clone, reparent, get_parent -- is a unit proved against the view 'chain of "
+             "dictionaries, the first one that has the key answers': writes go to the local dictionary only (parent and siblings "
+             "are outside every modifies clause, frame obligation), replace=False never shadows a key the chain defines, a clone "
+             "is a new dictionary with the same public content and the same parent.",
         design_ref="6/C14",
-        note="Assumed contracts: util.Scope.clone/reparent/get_parent, FunctionNode.clone. Not covered: util.Scope lookup "
-             "itself, per-argument attrs merge, ClassNode.clone outside the loop body, identity of whole runs (bounded "
-             "monitors m_equiv, m_options, m_purity).",
+        note="Assumed: Python's attribute protocol for a Scope instance (getattr: instance dictionary then __getattr__; setattr: "
+             "instance dictionary; hasattr), keys are not names of Scope's own class attributes, FunctionNode.clone. Not covered: "
+             "ClassNode.clone outside the loop body, identity of whole runs (bounded "
+             "monitors m_equiv, m_options, m_purity, m_scope).",
         technique="contract-based deductive verification (AST-generated VCs) + AST call-site obligations + effect judgement (history independence) + bounded two-run relations",
     ),
     "C11": dict(
